@@ -2697,6 +2697,11 @@ impl CanonicalizeContext {
 					if !(child_name == "msub" || child_name == "msup" || child_name == "msubsup") {
 						break;
 					}
+					if !CanonicalizeContext::is_empty_element(as_element(child.children()[0])) {
+						// a script element with a base of its own can't be one more prescript -- it holds the base
+						// (skipping over it would drop it when the children up to the base are drained)
+						return i_base;
+					}
 				}
 			}
 			// didn't find any good candidates for a base -- pick something valid
